@@ -107,30 +107,53 @@ func bldIPv4(payloadKind int, max int) *IPv4 {
 }
 
 func bldOption(maxData int) *Option {
-	n := vr.IntRange("optlen", 0, maxData)
+	n := vr.IntRange("optlen", 0, maxData+2)
+	if n > maxData {
+		n = 254 + (n - maxData - 1) // the two largest lengths an 8-bit length field can hold
+	}
 	return &Option{Type: vr.U8("opttype"), Length: uint8(n), Data: vr.Bytes("optdata", n)}
 }
 
-// bldHopByHop: k options that exactly fill 8*(HEL+1)-2 bytes (the last one sized to fit).
-func bldHopByHop(next uint8) *HopByHopHeader {
+// header-extension lengths exercised: the two smallest, the pair around the 8-bit product wrap
+// (8*(31+1) = 256) and the largest
+var helValues = []int{0, 1, 31, 32, 255}
+
+func pickHEL(name string, big bool) int {
+	if !big {
+		return vr.IntRange(name, 0, 1)
+	}
+	n := 4
+	if vr.Thorough() {
+		n = 5
+	}
+	return helValues[vr.Choice(name, n)]
+}
+
+// bldHopByHop: options that exactly fill 8*(HEL+1)-2 bytes (as many maximal options as needed,
+// optionally one small leading option, the last one sized to fit).
+func bldHopByHop(next uint8, big bool) *HopByHopHeader {
 	h := NewHopByHopHeader()
 	h.NextHeader = next
-	hel := vr.IntRange("hel", 0, 1)
+	hel := pickHEL("hel", big)
 	h.HEL = uint8(hel)
 	room := 8*(hel+1) - 2
-	if vr.Bool("twooptions") {
-		n1 := vr.IntRange("opt1len", 0, room-4)
+	if vr.Bool("leadingoption") {
+		n1 := vr.IntRange("opt1len", 0, 2)
 		h.Options = append(h.Options, &Option{Type: vr.U8("opttype"), Length: uint8(n1), Data: vr.Bytes("optdata", n1)})
 		room -= n1 + 2
+	}
+	for room > 257 {
+		h.Options = append(h.Options, &Option{Type: vr.U8("opttype"), Length: 253, Data: vr.Bytes("optdata", 253)})
+		room -= 255
 	}
 	h.Options = append(h.Options, &Option{Type: vr.U8("opttype"), Length: uint8(room - 2), Data: vr.Bytes("optdata", room-2)})
 	return h
 }
 
-func bldRouting(next uint8) *RoutingHeader {
+func bldRouting(next uint8, big bool) *RoutingHeader {
 	h := NewRoutingHeader()
 	h.NextHeader = next
-	hel := vr.IntRange("rhel", 0, 1)
+	hel := pickHEL("rhel", big)
 	h.HEL = uint8(hel)
 	h.RoutingType, h.SegmentsLeft = vr.U8("rtype"), vr.U8("segleft")
 	h.Data = util.NewBuffer(vr.Bytes("rdata", 8*(hel+1)-4))
@@ -173,9 +196,9 @@ func bldIPv6(chain int, payloadKind int, max int) *IPv6 {
 		}
 		switch hs[i] {
 		case Type_HBH:
-			ip.HbhHeader = bldHopByHop(next)
+			ip.HbhHeader = bldHopByHop(next, false)
 		case Type_Routing:
-			ip.RoutingHeader = bldRouting(next)
+			ip.RoutingHeader = bldRouting(next, false)
 		case Type_Fragment:
 			ip.FragmentHeader = bldFragment(next)
 		}
@@ -251,7 +274,14 @@ func bldIGMPv3Query(maxSrc int) *IGMPv3Query {
 }
 
 func bldGroupRecord(maxSrc int) IGMPv3GroupRecord {
-	return NewGroupRecord(vr.U8("rectype"), symIP4("mcast"), bldSources("nsrc", maxSrc))
+	r := NewGroupRecord(vr.U8("rectype"), symIP4("mcast"), bldSources("nsrc", maxSrc))
+	// auxiliary words: none, one, and the pair around the 8-bit product wrap (4*64 = 256)
+	aux := []int{0, 1, 63, 64}[vr.Choice("auxwords", 4)]
+	r.AuxDataLen = uint8(aux)
+	for i := 0; i < aux; i++ {
+		r.AuxData = append(r.AuxData, vr.U32("aux"))
+	}
+	return r
 }
 
 func bldIGMPv3Report(maxRec, maxSrc int) *IGMPv3MembershipReport {
